@@ -210,6 +210,10 @@ func solveAll(gens []*Gen, prelude string, outDir string, timeoutS int, workers 
 					// vacuity probe: only an unsat answer matters (contradictory
 					// assumptions show up fast); one solver, short budget
 					r = runSolver(solvers[0], file, 3)
+					for k := 1; k < len(solvers) && r.Status == "error"; k++ {
+						// a crashed or killed solver process says nothing about the query
+						r = runSolver(solvers[k], file, 3)
+					}
 				} else {
 					r = discharge(file, timeoutS)
 				}
